@@ -420,6 +420,20 @@ def c03_families(tier, seed, ids=None):
         items.append(c)
         ss.append(mk(ids, items, {"fn": fname, "history": hname}))
     out.append(("pure-family x histories x placements", ss, ("value",)))
+    # the same call many times over, after the session once needed a deep stack: a function that captures a local, calls on, updates the
+    # local and reads it through the closure gives the same result on the first call and on the five-hundredth (whatever the machine does
+    # with stack space it no longer needs)
+    rp = []
+    sumr = assign("sumr", fn(["n"], ife(bin_("==", N("n"), I(0)), I(0), bin_("+", N("n"), call("sumr", bin_("-", N("n"), I(1)))))))
+    capf = assign("capf", fn(["d"], block([assign("acc", I(0)), assign("get", fn([], N("acc"))), assign("acc", bin_("+", N("acc"), call("sumr", N("d")))), call("get")])))
+    capg = assign("capg", fn(["d"], block([assign("acc", lst([])), assign("get", fn([], N("acc"))), fr(["i"], [call("fromto", I(0), N("d"))], assign("acc", bin_("+", N("acc"), lst([call("sumr", N("i"))])))), call("get")])))
+    for depths in (((1000, 1037, 1100, 1200),) if tier == "quick" else ((1000, 1037, 1100, 1200, 1311, 1530), (300, 401, 555, 777, 901, 999), (2100, 2230, 2400, 2550, 2700, 3000))):
+        for fnm, arg, good in (("capf", 10, I(55)), ("capg", 4, lst([I(0), I(1), I(3), I(6)]))):
+            rounds = []
+            for k, depth in enumerate(depths):       # each round needs the deep stack again, then calls the function 40 times
+                rounds += [call("deep", I(depth)), assign("bad", I(0)), fr(["i"], [call("fromto", I(0), I(40))], iff(bin_("!=", call(fnm, I(arg)), good), assign("bad", bin_("+", N("bad"), I(1))))), N("bad")]
+            rp.append(mk(ids, [DEEP, sumr, capf, capg, call(fnm, I(arg))] + rounds + [call(fnm, I(arg))], {"fn": "repeated-" + fnm, "history": "deep-%d.." % depths[0]}))
+    out.append(("the same call repeated after the session once needed a deep stack", rp, ("value",)))
     # random pure functions called from several placements
     rs = []
     nrand = 40 if tier == "quick" else 1500
